@@ -48,7 +48,7 @@ func installTimestamper(tsa http.RoundTripper, mc *world.Memcached) error {
 	return nil
 }
 
-var c10Kinds = []string{"valid", "wrong-nonce", "no-nonce", "wrong-imprint", "rejected", "rejected-badalg", "rejected-badrequest", "rejected-baddataformat", "rejected-systemfailure", "waiting", "bad-signature", "forged-content", "double-wrapped", "double-wrapped-forged", "key-mismatch", "granted-with-mods", "status-revocation-warning", "status-revocation-notification", "status-unknown", "trailing", "garbage", "http500", "http503", "stall", "reset", "noeku"}
+var c10Kinds = []string{"valid", "wrong-nonce", "no-nonce", "granted-no-token", "wrong-imprint", "rejected", "rejected-badalg", "rejected-badrequest", "rejected-baddataformat", "rejected-systemfailure", "waiting", "bad-signature", "forged-content", "double-wrapped", "double-wrapped-forged", "key-mismatch", "granted-with-mods", "status-revocation-warning", "status-revocation-notification", "status-unknown", "trailing", "garbage", "http500", "http503", "stall", "reset", "noeku"}
 
 type c10Req struct {
 	ID       int
@@ -104,7 +104,7 @@ func c10Sign(r *core.Run) {
 				return world.TSAOutcome{Kind: "valid"}
 			}
 			k := c10Kinds[t.Choose(len(c10Kinds), "authority-fault")]
-			if legacy && (k == "wrong-nonce" || k == "no-nonce" || k == "trailing" || strings.HasPrefix(k, "double-wrapped") || strings.HasPrefix(k, "status-") || strings.HasPrefix(k, "rejected-") || k == "granted-with-mods") {
+			if legacy && (k == "wrong-nonce" || k == "no-nonce" || k == "granted-no-token" || k == "trailing" || strings.HasPrefix(k, "double-wrapped") || strings.HasPrefix(k, "status-") || strings.HasPrefix(k, "rejected-") || k == "granted-with-mods") {
 				k = "http503" // the legacy protocol has neither a nonce nor a DER envelope
 			}
 			return world.TSAOutcome{Kind: k}
